@@ -33,7 +33,7 @@ ASSUMPTIONS = [
     'they define) and non-empty',
 ]
 NSH = 16
-NLOCK = {'quick': 1280, 'thorough': 20_000}
+NLOCK = {'quick': 1280, 'thorough': 60_000}
 O = isa.op
 
 SMALL_ORDER = [
